@@ -323,6 +323,7 @@ type result struct {
 	after  []byte
 	uid    int
 	panic  string
+	conc   *concResult
 }
 
 var regProfile = struct{ nick, real, career, addr []byte }{[]byte("nick-c03"), []byte("Real Name"), []byte("career"), []byte("an address 1")}
@@ -330,6 +331,19 @@ var regProfile = struct{ nick, real, career, addr []byte }{[]byte("nick-c03"), [
 func callImpl(kind string, a [][]byte) (string, [][]byte) {
 	var out [][]byte
 	errc := hx.Call(func() string {
+		e, o := callImplRaw(kind, a)
+		out = o
+		return e
+	})
+	if errc == "PANIC" || errc == "TIMEOUT" {
+		out = nil
+	}
+	return errc, out
+}
+
+func callImplRaw(kind string, a [][]byte) (string, [][]byte) {
+	var out [][]byte
+	errc := func() string {
 		switch kind {
 		case "reg":
 			u, err := bbs.Register(string(a[0]), string(a[1]), "127.0.0.1", string(a[2]), regProfile.nick, regProfile.real, regProfile.career, regProfile.addr, true)
@@ -357,10 +371,7 @@ func callImpl(kind string, a [][]byte) (string, [][]byte) {
 			return errClass(err)
 		}
 		return "bad-op"
-	})
-	if errc == "PANIC" || errc == "TIMEOUT" {
-		out = nil
-	}
+	}()
 	return errc, out
 }
 
@@ -371,6 +382,13 @@ func doLine(line string) (string, *result) {
 	ws := strings.Fields(line)
 	if len(ws) == 0 {
 		return "bad-op", nil
+	}
+	if ws[0] == "conc" {
+		out, cr := doConc(ws)
+		if cr == nil {
+			return out, nil
+		}
+		return out, &result{kind: "conc", conc: cr}
 	}
 	if ws[0] == "reset" {
 		if len(ws) != 4 {
@@ -527,8 +545,13 @@ func emit(line string, nontrivial bool) {
 	if r != nil {
 		label = P.label(r)
 	}
+	if r != nil && r.kind == "conc" {
+		label = concLabel(r.conc)
+	}
 	i := run.Op(line, out, label, nontrivial)
-	if r != nil && r.kind != "reset" {
+	if r != nil && r.kind == "conc" {
+		P.judgeConc(i, line, r.conc)
+	} else if r != nil && r.kind != "reset" {
 		P.judge(i, line, r)
 	}
 }
